@@ -124,7 +124,7 @@ def check(s: DScn, subject, items) -> list:
         return n["id"] == PSEUDO and (PSEUDO not in ids or "label" not in n["attrs"])
 
     hl = sorted(n["id"] for n in nodes if n["id"] in ids and not is_pseudo(n) and highlighted(n["attrs"]))
-    if subject[0] == "cls":
+    if subject[0] in ("cls", "unset"):     # (an instance whose model holds no state yet: nothing to highlight)
         want_hl = []
     else:
         want_hl = sorted(st.id for st in s.states if value_text(st) == subject[1])
